@@ -439,6 +439,15 @@ def r15_4(ctx, rep):
                 continue
             lid = T.resolve_locals(eng4, row.store, T.field(row.ret, "listener_id"))
             ok = lid[0] == "call" and lid[1].endswith("fetch_add")
+            if not ok and T.last_field(lid) is not None and T.last_field(lid)[1] == "listener_idx":
+                # a plain counter under the write lock: id = counter; counter := counter + 1 (wrapping / checked / plain)
+                for wv in [e for e in row.events if e[0] in ("write", "lwrite")]:      # the guard is a local: lwrite
+                    if wv[2] and wv[2][-1][0] == "f" and wv[2][-1][2] == "listener_idx":
+                        nv = T.resolve_locals(eng4, row.store, wv[3])
+                        inc = [x for x in T.subterms(nv) if (x[0] == "call" and sym.strip_all_generics(x[1]).split("::")[-1] in ("wrapping_add", "checked_add", "saturating_add")
+                                                              and len(x[2]) == 2 and x[2][1] == sym.C(1) and T.resolve_locals(eng4, row.store, x[2][0]) == lid) or (
+                            x[0] == "op" and x[1] in ("Add", "AddWithOverflow") and sym.C(1) in (x[2], x[3]) and lid in (x[2], x[3]))]
+                        ok = ok or bool(inc)
             rep.obligation(ok, "C15/R15.4/id-source", "listener ids come from %s" % sym.fmt(lid)[:60], where(f), sample="id = listener_idx.fetch_add(1)")
             sube = [e for e in row.calls() if e[1].endswith("InnerListeners::subscribe_event")]
             if sube:
